@@ -30,6 +30,7 @@ type RSource struct {
 	Released int    `json:"released"` // >= 0: the source is gated after this many bytes
 	After    string `json:"after"`    // behaviour at the gate: "block" | "error"; "garbage": unrelated bytes follow (no gate)
 	Garbage  int    `json:"garbage"`  // After == "garbage": the offset at which the unrelated bytes start
+	ErrKind  string `json:"errkind"`  // what the injected error looks like (errKinds): plain, or wrapping / claiming to be a sentinel
 }
 
 // RSeg is one use of the Reader: construction or Reset, then reads.
@@ -179,7 +180,7 @@ func (s *schedSource) Read(p []byte) (int, error) {
 			// the Reader asks for bytes that a blocking source would not deliver
 			s.rec.gate()
 			if s.spec.After == "error" {
-				s.failed, s.errVal = true, newInjected()
+				s.failed, s.errVal = true, newInjectedKind(s.spec.ErrKind)
 				s.rec.src(s.pos, 0, "injected")
 				return 0, s.errVal
 			}
@@ -190,7 +191,7 @@ func (s *schedSource) Read(p []byte) (int, error) {
 	if s.spec.FailAt >= 0 && s.spec.FailAt < limit {
 		limit = s.spec.FailAt
 		if s.pos >= limit {
-			s.failed, s.errVal = true, newInjected()
+			s.failed, s.errVal = true, newInjectedKind(s.spec.ErrKind)
 			s.rec.src(s.pos, 0, "injected")
 			return 0, s.errVal
 		}
@@ -213,7 +214,7 @@ func (s *schedSource) Read(p []byte) (int, error) {
 	copy(p, s.data[s.pos:s.pos+n])
 	s.pos += n
 	if s.spec.FailAt >= 0 && s.pos == s.spec.FailAt && s.spec.FailData && s.spec.FailAt < len(s.data) {
-		s.failed, s.errVal = true, newInjected()
+		s.failed, s.errVal = true, newInjectedKind(s.spec.ErrKind)
 		s.rec.src(s.pos, n, "injected")
 		return n, s.errVal
 	}
@@ -319,8 +320,10 @@ func errClassR(err error, src *schedSource) (class, detail string) {
 		return "nil", ""
 	case err == io.EOF:
 		return "eof", ""
-	case src != nil && src.errVal != nil && errors.Is(err, src.errVal):
+	case src != nil && src.errVal != nil && err == src.errVal:
 		return "injected", ""
+	case src != nil && src.errVal != nil && errors.Is(err, src.errVal):
+		return "other", "the source's error wrapped in another: " + err.Error()
 	case errors.Is(err, io.ErrUnexpectedEOF):
 		return "uxeof", ""
 	}
